@@ -25,13 +25,24 @@ func validatePerBlockReward(r interface{}) error {
 	if len(reward) == 0 {
 		return fmt.Errorf("invalid per block reward: %v", reward)
 	}
+	seen := make(map[string]struct{}, len(reward))
 	for _, rr := range reward {
 		if len(rr.Denom) == 0 {
 			return fmt.Errorf("denom of per block reward can not be empty")
 		}
+		if err := sdk.ValidateDenom(rr.Denom); err != nil {
+			return fmt.Errorf("invalid per block reward denom: %w", err)
+		}
+		if rr.Amount.IsNil() {
+			return fmt.Errorf("amount of per block reward can not be nil: %s", rr.Denom)
+		}
 		if rr.IsNegative() {
 			return fmt.Errorf("invalid per block reward: %v", rr)
 		}
+		if _, dup := seen[rr.Denom]; dup {
+			return fmt.Errorf("duplicate denom in per block reward: %s", rr.Denom)
+		}
+		seen[rr.Denom] = struct{}{}
 	}
 	return nil
 }
@@ -50,10 +61,9 @@ func (m *Params) ParamSetPairs() paramtypes.ParamSetPairs {
 }
 
 func (m *Params) validate() error {
-	if m.EnableVesting {
-		return validatePerBlockReward(m.PerBlockReward)
-	}
-	return nil
+	// the reward is stored (and validated by the param store) whether or not
+	// vesting is enabled, and vesting can be enabled later by a param change
+	return validatePerBlockReward(m.PerBlockReward)
 }
 
 func DefaultParams() Params {
